@@ -104,6 +104,11 @@ func specMentions(p *Prog, fs *FuncSpec, prop string) bool {
 			return true
 		}
 	}
+	for _, m := range fs.Establishes {
+		if len(m.Props) > 0 && hasProp(m.Props, prop) {
+			return true
+		}
+	}
 	return false
 }
 
